@@ -95,6 +95,13 @@ def dis_one(b):
     bytes_ok = (bytes(i.b) == bytes(b[:l]))
     red = True
     try:
+        # the rendering shows the decoded instruction: asking for it again (or for the other syntax in between) must not change it
+        i.__str__(asm_format="att_syntax binutils")
+        if str(i) != txt:
+            red = False
+    except Exception:
+        pass
+    try:
         j = x86mnemo.dis(bytes(b[:l]))
         if j is None or j.l != l or str(j) != txt:
             red = False
@@ -110,7 +117,7 @@ def judge(b, mi, r1, r2, addr):
     if not bytes_ok:
         return ("fail", ("raw-bytes", row_key(b, l)[1]), "dis(%s): instr.b is not the consumed prefix of the input" % b.hex())
     if not red:
-        return ("fail", ("redecode",) + row_key(b, l)[:3], "dis(%s) reports length %d, but decoding exactly those bytes gives another result" % (b.hex(), l))
+        return ("fail", ("redecode",) + row_key(b, l)[:3], "dis(%s) reports length %d, but decoding exactly those bytes gives another result, or rendering the same object a second time differs" % (b.hex(), l))
     if r1 is None:
         return ("excluded:reference_no_line",)
     n1 = nf.parse(r1[1], addr, r1[0])
